@@ -66,6 +66,32 @@ def read_fasta(path):
                 out[-1][1] += line
     return out
 
+def _aslist(v):
+    return list(v) if isinstance(v, (list, tuple)) else [v]
+
+class _ForcedTimeouts:
+    """C02 retry clause: inside THIS worker process only, make the first n attempts of every transcript
+    raise TimeoutError (as common.timeout would) and log the limits each attempt is given."""
+    def __init__(self, n):
+        import importlib
+        M = importlib.import_module('moPepGen.cli.call_variant_peptide')   # the module, not the function re-exported by cli
+        M = sys.modules['moPepGen.cli.call_variant_peptide']
+        self.M, self.n, self.log, self.count = M, n, [], {}
+    def __enter__(self):
+        self.orig = self.M.call_variant_peptides_wrapper
+        def fake(**dispatch):
+            p = dispatch['cleavage_params']
+            tx = dispatch['tx_id']
+            self.log.append([tx, p.max_variants_per_node, p.additional_variants_per_misc])
+            if self.count.get(tx, 0) < self.n:
+                self.count[tx] = self.count.get(tx, 0) + 1
+                raise TimeoutError('forced by the C02 correspondence')
+            return self.orig(**dispatch)
+        self.M.call_variant_peptides_wrapper = fake
+        return self
+    def __exit__(self, *a):
+        self.M.call_variant_peptides_wrapper = self.orig
+
 def one_run(d, g, a, p, gvfs, r, idx):
     outp = os.path.join(d, 'out%d.fasta' % idx)
     argv = ['callVariant', '--input-path'] + gvfs + [
@@ -74,8 +100,8 @@ def one_run(d, g, a, p, gvfs, r, idx):
         '--cleavage-rule', r['rule'], '--cleavage-exception', r['exc'],
         '--miscleavage', str(r['k']), '--min-mw', repr(r['min_mw']),
         '--min-length', str(r['min_len']), '--max-length', str(r['max_len']),
-        '--max-variants-per-node', str(r.get('mvpn', -1)),
-        '--additional-variants-per-misc', str(r.get('avpm', -1)),
+        '--max-variants-per-node'] + [str(v) for v in _aslist(r.get('mvpn', -1))] + [
+        '--additional-variants-per-misc'] + [str(v) for v in _aslist(r.get('avpm', -1))] + [
         '--min-nodes-to-collapse', str(r.get('mnc', 30)),
         '--naa-to-collapse', str(r.get('naa', 5)),
         '--threads', '1', '--quiet'] + list(r.get('extra', []))
@@ -83,13 +109,24 @@ def one_run(d, g, a, p, gvfs, r, idx):
     args = _PARSER.parse_args(argv)
     if not hasattr(args, 'quiet'):
         args.quiet = True
+    forced = _ForcedTimeouts(int(r['force_timeouts'])) if r.get('force_timeouts') is not None else None
     try:
-        cli.call_variant_peptide(args)
+        if forced:
+            with forced:
+                cli.call_variant_peptide(args)
+        else:
+            cli.call_variant_peptide(args)
     except SystemExit as e:
         return {'__exc__': 'SystemExit', 'msg': str(e.code)}
     except BaseException as e:   # noqa
-        return {'__exc__': type(e).__name__, 'msg': str(e)[:300], 'tb': traceback.format_exc()[-1200:]}
-    return {'fasta': read_fasta(outp)}
+        out = {'__exc__': type(e).__name__, 'msg': str(e)[:300], 'tb': traceback.format_exc()[-1200:]}
+        if forced:
+            out['attempts'] = forced.log
+        return out
+    out = {'fasta': read_fasta(outp)}
+    if forced:
+        out['attempts'] = forced.log
+    return out
 
 def handle(case):
     _N[0] += 1
